@@ -284,7 +284,7 @@ fn excerpt(text: &str, needle: &str) -> String {
 }
 
 pub fn run_c32(ctx: &Ctx) {
-    let n = ctx.tier.pick(2_400usize, 100_000);
+    let n = ctx.tier.pick(6_000usize, 200_000);
     let n_prover = ctx.tier.pick(96usize, 2_000);
     ctx.set_rule(&format!(
         "{} generated inputs (random secrets/accounts/siblings, transfer counts, input amounts and digest words with >= 5 significant digits), {} of them also through a committed WormholeProver; rendered with {{:?}} and {{:#?}} for PrivateCircuitInputs, CircuitInputs, Nullifier (from inputs and from_preimage), UnspendableAccount (from inputs and from_secret), ZkLeafData, ZkMerkleProofData, HeaderInputs, BlockHeader, committed WormholeProver. \
@@ -671,7 +671,7 @@ fn derive_secret(seed: u64) -> [u8; 32] {
 }
 
 pub fn run_c33(ctx: &Ctx) {
-    let n = ctx.tier.pick(80_000usize, 2_000_000);
+    let n = ctx.tier.pick(400_000usize, 12_000_000);
     ctx.set_rule(&format!(
         "{} generated sequences (length 1..30) over the secret-handling operations: Secret::{{new (valid and invalid, checking the caller's buffer is zeroed), from(BytesDigest), from(Digest), try_from, expose_digest, expose_felts, drop}}, Nullifier::{{new, from_preimage, from(&inputs), to_bytes, from_bytes, to_field_elements, from_field_elements, drop}}, the same eight for UnspendableAccount, the four decoders on encodings damaged outside the secret (length +-k, a limb before or after the secret made non-canonical / above 2^32: error paths taken after the secret has been copied), building and dropping PrivateCircuitInputs/CircuitInputs, with generated drop order; \
          the secret is derived inside the case from a generated seed into a stack array (patterns with a zero limb, a p-1 limb, repeated limbs). The harness allocator, armed on the executing thread, scans every block that thread frees (or reallocates) for the 32-byte image (byte form = little-endian felt form). \
